@@ -49,6 +49,14 @@ theorem fixed_point (f : Nat) (bs : Bytes) (hb : IsBytes bs) (enc : Bytes) (dc :
     ∃ dc', rtBox f enc = .ok enc dc' :=
   TreeRT.fixed_point f bs hb enc dc hsz h8 hm h hlen
 
+/-- **what `MoovBox.AddChild` may do to the order** (the committed trak-adjacent normalisation): whatever the children of
+    a moov box are, after all `AddChild` calls the trak boxes are in their original relative order and so are all the
+    other children — nothing is lost, duplicated or altered, only traks move next to each other -/
+theorem moov_order (kids : List Kid) :
+    (arrange "moov" kids).filter (fun k => k.ty == "trak") = kids.filter (fun k => k.ty == "trak") ∧
+    (arrange "moov" kids).filter (fun k => !(k.ty == "trak")) = kids.filter (fun k => !(k.ty == "trak")) :=
+  TreeRT.moov_order kids
+
 /-- non-vacuity: a concrete nested tree (traf [tfhd, tfdt]) is accepted and reproduced -/
 example : (match roundTripTree ([0,0,0,0x2c] ++ [0x74,0x72,0x61,0x66] ++
       ([0,0,0,0x10] ++ [0x74,0x66,0x68,0x64] ++ [0,0,0,0, 0,0,0,1]) ++
